@@ -269,4 +269,39 @@ def run(ctx):
             r.fail(inst, func=gp.name, sig='negative fragment index not refused: ' + prob[:50], loc=c.loc,
                    msg=f'when get_fragment_idx reports that the buffer is not a host-order fragment, {prob}: decode and reconstruct then accept a stripe that contains such a header')
     r.require_min(1)
+    # ---------------- R09f the consumers look at every supplied fragment
+    r = ctx.rule('R09f', 'fragments_to_string / get_fragment_partition read the index of every supplied fragment: their loop ends at the count or with an error',
+                 'the index helper is what refuses opposite-endian (and non-) fragments: a loop that stops early accepts a stripe whose later members were never looked at')
+    from ..poly import PolyCtx as _PC9f, Poly as _P9f
+    from ..loops import loops_of as _lo9f, innermost as _in9f
+    from ..retval import returns_via_edge as _rve9f, all_negative as _an9f
+    for fname in ('fragments_to_string', 'get_fragment_partition'):
+        g_ = P.fn(fname)
+        pc_ = _PC9f(P, g_)
+        LS_ = _lo9f(P, g_, pc_)
+        cnt = [pi for pi, (ty_, n_) in enumerate(g_.params) if ty_ == 'i32'][2:3]        # (k, m, fragments, num_fragments, ...)
+        for c in [i for i in g_.insts() if i.op == 'call' and i.callee == '@get_fragment_idx' and i.res]:
+            L_ = _in9f(LS_, c.bb)
+            inst = f'{fname}: the loop around get_fragment_idx (line {c.line}) visits all num_fragments entries'
+            if L_ is None or not cnt:
+                r.undecided(inst, loc=c.loc, msg='the index is not read inside a loop over the fragments')
+                continue
+            want = _P9f.atom(f'arg{cnt[0]}')
+            problems = []
+            bound_ok = False
+            for (xb, xs) in L_.exits:
+                gs = [gd for gd in L_.guards() if gd.block is xb and gd.exit_edge == (xb, xs)]
+                if any(L_.count_for(gd)[0] == want for gd in gs):
+                    bound_ok = True
+                    continue
+                if _an9f(_rve9f(g_, xb, xs)):
+                    continue                       # an error exit
+                problems.append(f'the loop can be left at line {xb.insts[-1].line} before every fragment was looked at')
+            if not bound_ok:
+                problems.append('no exit of the loop is the end of the list (count = num_fragments)')
+            if problems:
+                r.fail(inst, func=g_.name, sig='fragment loop: ' + problems[0][:70], loc=c.loc, msg='; '.join(problems) + ': fragments behind that point are accepted unseen')
+            else:
+                r.ok(inst, func=g_.name, loc=c.loc)
+    r.require_min(2)
     ctx.borrow('c10', ['R10d'], 'the metadata checksum is accepted when it equals the standard or the historical CRC: the historical function must be the historical function')
